@@ -172,7 +172,7 @@ func init() {
 		ID:     "C16",
 		Word32: true,
 		Level:  "exploration",
-		Rule: "E1 bounded-exhaustive enumeration: key sets = every non-empty subset (in sorted order) of the 13 strings of length ≤2 over {00,'a',ff}, each behind the stems of 0/7/8/9/16/17/24/31/32/33/64/65 bytes; every subset of 12 keys built from 4 stem variants (first byte 's'/0x00/0xff, eighth byte 0x80); every subset of the 13 strings of length ≤2 over {'a',80,c3} and over {7f,80,bf} (UTF-8 continuation and lead bytes); every subset of 5 short keys behind EVERY stem length 0..80; two key sets with a full 256-byte fan-out below one key; four large key sets taken whole (31, 63, 121 and 341 keys); chains a, aa, aaa, ... of 33, 34, 65, 66 keys (C17 also 130 and 258) and a 36-level directory tree taken whole (deep nesting); every subset of the 15 strings of length ≤3 over {00,'a'} and every subset of size ≤4 of the 40 strings of length ≤3 over {00,'a',ff} behind stems of 0 and 8 bytes (thorough adds every subset of the 21 strings of length ≤2 over {00,01,'a',ff} and the subsets of size 5..6 of the 40 strings): FirstDiffBits on the set; New+CountPrefixes for every 0 ≤ s, s+2 ≤ e ≤ len and every m in {1,2,4,7,10,17}. Generated key lists of EVERY threshold size n = b-1, b, b+1 (b in 2^k, 3·2^k, 10^k, 2·10^k, 5·10^k) from 1000 up to 400001 keys (thorough: 2^20+1), in two styles ('k'+3-byte big-endian counter; 8-byte stem + 7 decimal digits): FirstDiffBits on the list, CountPrefixes (m in {1,7,17}) over the whole list, its halves and short ranges around every 1/8th. " +
+		Rule: "E1 bounded-exhaustive enumeration: key sets = every non-empty subset (in sorted order) of the 13 strings of length ≤2 over {00,'a',ff}, each behind the stems of 0/7/8/9/16/17/24/31/32/33/64/65 bytes; every subset of 12 keys built from 4 stem variants (first byte 's'/0x00/0xff, eighth byte 0x80); every subset of the 13 strings of length ≤2 over {'a',80,c3} and over {7f,80,bf} (UTF-8 continuation and lead bytes); every subset of 5 short keys behind EVERY stem length 0..80; two key sets with a full 256-byte fan-out below one key; four large key sets taken whole (31, 63, 121 and 341 keys); every subset of 12 keys built from 3 variants of a 17-byte (and of a 25-byte) stem that differ in the first 8-byte chunk and agree in the later ones × 4 tails; chains a, aa, aaa, ... of 33, 34, 65, 66 keys (C17 also 130 and 258) and a 36-level directory tree taken whole (deep nesting); every subset of the 15 strings of length ≤3 over {00,'a'} and every subset of size ≤4 of the 40 strings of length ≤3 over {00,'a',ff} behind stems of 0 and 8 bytes (thorough adds every subset of the 21 strings of length ≤2 over {00,01,'a',ff} and the subsets of size 5..6 of the 40 strings): FirstDiffBits on the set; New+CountPrefixes for every 0 ≤ s, s+2 ≤ e ≤ len and every m in {1,2,4,7,10,17}. Generated key lists of EVERY threshold size n = b-1, b, b+1 (b in 2^k, 3·2^k, 10^k, 2·10^k, 5·10^k) from 1000 up to 400001 keys (thorough: 2^20+1), in two styles ('k'+3-byte big-endian counter; 8-byte stem + 7 decimal digits): FirstDiffBits on the list, CountPrefixes (m in {1,7,17}) over the whole list, its halves and short ranges around every 1/8th. " +
 			"Oracle: first differing index of the '0'/'1' renderings (8·min(len) for a byte-prefix); m0 = minimum over the range; counter i = number of distinct values of the bit string truncated to m0+i bits (adjacent-compare count in the hot path, cross-checked against a map count). A case is one call; non-trivial when the range holds ≥3 keys or the set has a shared stem; key sets that re-occur in a later family are executed again but counted once.",
 		Assumptions: []string{"key sets are drawn from small byte alphabets behind fixed stems; the 8-byte chunk boundaries are crossed through the stems"},
 		Run:         c16Run,
@@ -322,6 +322,19 @@ func c16Families(c *mc.Ctx) []c16Family {
 		c16Family{"all 63 strings of len≤5 over {00,'a'}", sortS(gen.Strings([]byte{0, 'a'}, 5)), []int{0, 9}, c16Whole, false},
 		c16Family{"all 121 strings of len≤4 over {00,'a',ff}", sortS(gen.Strings([]byte{0, 'a', 0xff}, 4)), []int{0, 8}, c16Whole, false},
 		c16Family{"all 341 strings of len≤4 over {00,01,'a',ff}", sortS(gen.Strings([]byte{0, 1, 'a', 0xff}, 4)), []int{0}, c16Whole, false})
+	// LONG stems that differ EARLY and agree LATER: 17- and 25-byte stems in 3 variants (first byte 's' /
+	// 0x00 / 0xff ... eighth byte 0x80) × tails {'', 'a', 'b', 00}: adjacent keys share two or three whole
+	// 8-byte chunks, the next key differs in the first chunk and repeats the later ones (what a scan that
+	// resumes where the previous pair stopped would skip)
+	for _, n := range []int{17, 25} {
+		var ks []string
+		for _, v := range []int{0, 1, 3} {
+			for _, t := range []string{"", "a", "b", "\x00"} {
+				ks = append(ks, c09StemV(n, v)+t)
+			}
+		}
+		f = append(f, c16Family{name: fmt.Sprintf("3 variants of a %d-byte stem × 4 tails", n), univ: sortS(ks), stems: []int{0}, maxSize: 0})
+	}
 	// deep NESTING: chains in which every key is a prefix of the next (a, aa, aaa, ...: as many oversized
 	// ranges nested in one another as there are keys) of 33, 34, 65, 66, 130 and 258 keys, and a
 	// 36-level "directory tree" (a^k and a^k b): explicit stacks and depth limits sit at 32, 64, 128, 256
